@@ -76,7 +76,7 @@ _PY_EXC = {'Exception': None, 'ValueError': 'Exception', 'TypeError': 'Exception
            'KeyError': 'LookupError', 'LookupError': 'Exception', 'OverflowError': 'ArithmeticError',
            'ArithmeticError': 'Exception', 'AssertionError': 'Exception', 'NotImplementedError': 'RuntimeError',
            'RuntimeError': 'Exception', 'AttributeError': 'Exception', 'Error': 'ValueError',
-           'BadSignatureError': 'Exception', 'UnicodeDecodeError': 'ValueError', 'StopIteration': 'Exception',
+           'BadSignatureError': 'CryptoError', 'CryptoError': 'Exception', 'UnicodeDecodeError': 'ValueError', 'StopIteration': 'Exception',
            'ZeroDivisionError': 'ArithmeticError'}
 
 
@@ -326,7 +326,7 @@ class Interp:
             if name in m.classes:
                 return m.classes[name]
             if name in m.funcs:
-                return m.funcs[name]
+                return self.decorated(m.funcs[name])
             if name in m.imports:
                 tgt, nm = m.imports[name]
                 return self.resolve_import(tgt, nm)
@@ -341,6 +341,40 @@ class Interp:
         if name in ('True', 'False', 'None'):
             return K({'True': True, 'False': False, 'None': None}[name])
         return Builtin(name)
+
+    TRANSPARENT_DECORATORS = ('property', 'staticmethod', 'classmethod', 'setter', 'getter', 'abstractmethod', 'lru_cache', 'cache', 'wraps', 'overload',
+                              'cached_property', 'final', 'override', 'dataclass', 'total_ordering', 'no_type_check', 'deprecated')
+
+    @staticmethod
+    def dec_names(node):
+        out = []
+        for d in getattr(node, 'decorator_list', []):
+            core = d.func if isinstance(d, ast.Call) else d
+            out.append(core.id if isinstance(core, ast.Name) else core.attr if isinstance(core, ast.Attribute) else '?')
+        return out
+
+    def decorated(self, f):
+        """what the name of a decorated def is bound to: decorators the interpreter does not model itself are applied (bottom-up) to the function"""
+        decs = getattr(f.node, 'decorator_list', None)
+        if not decs:
+            return f
+        cache = self.__dict__.setdefault('_decorated', {})
+        key = id(f.node)
+        if key in cache:
+            return cache[key]
+        v = f
+        for d in reversed(decs):
+            core = d.func if isinstance(d, ast.Call) else d
+            name = core.id if isinstance(core, ast.Name) else core.attr if isinstance(core, ast.Attribute) else None
+            if name in self.TRANSPARENT_DECORATORS:
+                continue
+            fr = Frame(f.module, f.closure, cls=f.cls)
+            dec = self.ev(d, fr)
+            if isinstance(dec, (Ext, Builtin, Sym, Term)):
+                raise Fail(f'decorator {ast.unparse(d)[:40]} of {f.qual} is not modelled')
+            v = self.call(dec, [v], {}, d)
+        cache[key] = v
+        return v
 
     def resolve_import(self, tgt, nm, seen=()):
         if tgt == '<ext>':
@@ -358,7 +392,7 @@ class Interp:
         if nm in m.classes:
             return m.classes[nm]
         if nm in m.funcs:
-            return m.funcs[nm]
+            return self.decorated(m.funcs[nm])
         if nm in m.consts:
             cache = self.__dict__.setdefault('_globals', {})
             if (tgt, nm) not in cache:
@@ -709,7 +743,7 @@ class Interp:
                 if all(not isinstance(o, tuple) or o[:1] not in (('sym',), ('t',), ('p',)) for o in list(coll.d) + [k]):
                     return False
                 # symbolic keys: unknown unless the same key object
-                if getattr(self, 'INJECTIVE_KEYS', False):
+                if getattr(self, 'INJECTIVE_KEYS', True):
                     return False
                 return None if (isinstance(k, tuple) or any(isinstance(o, tuple) for o in coll.d)) else False
         elif isinstance(coll, SetV):
@@ -720,7 +754,7 @@ class Interp:
                 return False
             if all(not isinstance(o, tuple) or o[:1] not in (('sym',), ('t',), ('p',)) for o in list(coll.items) + [k]):
                 return False        # constants and objects keyed by their own __hash__ result: absent means not a member
-            if getattr(self, 'INJECTIVE_KEYS', False):
+            if getattr(self, 'INJECTIVE_KEYS', True):
                 return False
             return None if coll.items else False
         elif isinstance(coll, K) and isinstance(coll.v, (tuple, list, str, bytes, dict, range, set, frozenset)):
@@ -957,6 +991,8 @@ class Interp:
                 return v.d[k]
             if isinstance(i, K) and all(not isinstance(o, tuple) for o in v.d):
                 raise RaiseEx('KeyError', repr(i.v))
+            if getattr(self, 'INJECTIVE_KEYS', True):
+                raise RaiseEx('KeyError', vrepr(i)[:40])        # distinct symbolic keys denote distinct values
             return Term('item', v, i)
         if isinstance(v, ListV) and isinstance(i, K) and isinstance(i.v, int):
             try:
@@ -1074,6 +1110,15 @@ class Interp:
                 decs = f.decorators()
                 if a == '__new__':
                     return f
+                alld = self.dec_names(fn)
+                if alld and not all(d in self.TRANSPARENT_DECORATORS for d in alld):
+                    g = self.decorated(f)
+                    if g is not f:
+                        if isinstance(g, FuncRef) and inst is not None and 'staticmethod' not in decs:
+                            return Bound(inst if 'classmethod' not in decs else (inst.cls if isinstance(inst, Inst) else cls), g)
+                        if isinstance(g, FuncRef) and 'classmethod' in decs:
+                            return Bound(cls, g)
+                        return g
                 if inst is not None and 'property' in decs:
                     return self.invoke(f, [inst], {})
                 if inst is not None and 'setter' in decs:
@@ -1324,6 +1369,11 @@ class Interp:
             return any(x in chain for x in names)
         chain = [kind]
         cur = kind
+        if kind in ('NaclValueError', 'NaclTypeError'):
+            # PyNaCl's own ValueError / TypeError derive from the builtin of that name *and* from nacl.exceptions.CryptoError
+            chain += ['CryptoError']
+            cur = kind[4:]
+            chain.append(cur)
         for _ in range(20):
             c = self.prog.classes.get(cur)
             if c is not None:
